@@ -67,6 +67,15 @@ def run(F, R):
                 if block:
                     o, passed = trace(b, disp.args[0])
                     reps = [c for c in passed if c.callee and c.callee.endswith("::replace")]
+                    # follow a chain of replace calls through their receivers
+                    todo = list(reps)
+                    while todo:
+                        rc = todo.pop()
+                        o2, p2 = trace(b, rc.args[0])
+                        for c2 in p2:
+                            if c2.callee and c2.callee.endswith("::replace") and c2 not in reps:
+                                reps.append(c2)
+                                todo.append(c2)
                     neutral = any('"""' in (resolve_str(b, c.args[1]) or "") or '"' == (resolve_str(b, c.args[1]) or "") for c in reps if len(c.args) > 1)
                     R.check(neutral, "R17.1", "block-description-triple-quote:" + fnname, s["call"].where(), "triple quote neutralised",
                             "a description containing `\"\"\"` is written verbatim inside a block string and terminates it")
@@ -102,11 +111,23 @@ def run(F, R):
     R.rule("R17.3", "record coverage (K12/K11): every SDL emitter of a MetaInputValue reads name, ty, default_value and deprecation, and its "
                     "description is emitted by the emitter or its caller; the exporter reads enum value / field / union / interface metadata")
     emit = [b for b in bodies if b.kind == "fn" and any("MetaInputValue" in t for t in b.locals[1:b.argc + 1]) and fmt_sites(b)]
+    # a function that hands its MetaInputValue to a direct emitter is an emitter too (delegation)
+    direct = {b.defp: b for b in emit}
+    deleg = {}
+    for b in bodies:
+        if b.kind == "fn" and b.defp not in direct and any("MetaInputValue" in t for t in b.locals[1:b.argc + 1]):
+            tg = [c.callee for c in b.calls() if c.callee in direct]
+            if tg:
+                deleg[b.defp] = tg
+                emit.append(b)
     R.floor("R17.3", "MetaInputValue emitters", len(emit), 2)
     for b in emit:
         reads = set()
         for x in F.with_nested(b):
             reads |= typed_field_reads(x, r"registry::MetaInputValue")
+        for tgt in deleg.get(b.defp, []):
+            for x in F.with_nested(direct[tgt]):
+                reads |= typed_field_reads(x, r"registry::MetaInputValue")
         # deprecation may be delegated (write_deprecated(sdl, &input_value.deprecation))
         need = {"name", "ty", "default_value", "deprecation"}
         fnname = re.sub(r"\{impl#\d+\}", "{impl}", b.defp.replace("async_graphql::registry::", ""))
